@@ -29,7 +29,7 @@ def _env(it):
 CONTRACTS["cascade:validate_cascade#nesting"] = dict(
     # the loop is found by what its body tests; that it runs over EVERY consecutive pair (first index 0, stop index n - 1) is an
     # obligation on its iterable, whatever its source text
-    schema=schema, fragment={"body_contains": "set(expanded[i + 1]) <= set(expanded[i])", "iter_range": {"first": "0", "stop": "n_stages - 1", "label": "C18+C20.every_consecutive_pair_of_stages_is_checked"}},
+    schema=schema, fragment={"iter": "range(0, len(expanded) - 1)", "body_contains": "set(expanded[i + 1]) <= set(expanded[i])", "iter_range": {"first": "0", "stop": "n_stages - 1", "label": "C18+C20.every_consecutive_pair_of_stages_is_checked"}},
     make_env=_env, params={"i": "int"},
     stubs={"expanded.keys()": "STAGE_NAMES"},
     requires=["0 <= i", "i < n_stages - 1"],
